@@ -28,12 +28,42 @@ void h_OCTET_STRING_decode_ber(void) {
 	__CPROVER_assert(rv.consumed <= size, "C04: consumed <= size");
 	if(sptr) {
 		OCTET_STRING_t *st = (OCTET_STRING_t *)sptr;
-		if(rv.code == RC_OK) __CPROVER_assert(st->buf != 0 && st->size <= size && st->buf[st->size] == 0, "C04/C15: decoded string is NUL terminated and not longer than the input");
+		if(rv.code == RC_OK) __CPROVER_assert(st->size <= size && ((st->buf == 0 && st->size == 0) || (st->buf != 0 && st->buf[st->size] == 0)), "C04/C15: decoded string is not longer than the input and NUL terminated (an empty constructed string may have no buffer at all)");
 		if(rv.code == RC_OK && bits) __CPROVER_assert(((BIT_STRING_t *)sptr)->bits_unused >= 0 && ((BIT_STRING_t *)sptr)->bits_unused <= 7, "C04: decoded BIT STRING satisfies its own constraint");
 		/* primitive definite form is accepted with its contents */
 		if(!bits && size >= 2 && buf[0] == 0x04 && buf[1] < 0x80 && size >= 2u + buf[1]) __CPROVER_assert(rv.code == RC_OK && rv.consumed == 2u + buf[1] && st->size == buf[1], "C03: primitive definite OCTET STRING accepted");
 		OCTET_STRING_free(td, sptr, ASFM_FREE_EVERYTHING);   /* --memory-leak-check: incl. the expectation stack */
 	}
+}
+
+/* two-chunk restart of the (possibly constructed) string decoder equals one-shot decoding.  Not run under CBMC (the
+ * one-shot entry already exceeds the time limit there); evaluated by the native grid harness/grid_os_ber.c. */
+void h_OCTET_STRING_decode_ber_chunked(void) {
+	VF_BYTES(buf, VF_NB); VF_SCALAR(size_t, size); VF_SCALAR(size_t, k); VF_SCALAR(int, bits);
+	__CPROVER_assume(size <= VF_NB && k <= size);
+	const asn_TYPE_descriptor_t *td = bits ? &asn_DEF_BIT_STRING : &asn_DEF_OCTET_STRING;
+	void *s1 = 0, *s2 = 0;
+	asn_codec_ctx_t ctx; memset(&ctx, 0, sizeof(ctx));
+	asn_dec_rval_t one = OCTET_STRING_decode_ber(&ctx, td, &s1, buf, size, 0);
+	asn_dec_rval_t r1 = OCTET_STRING_decode_ber(&ctx, td, &s2, buf, k, 0);
+	VF_CANARY();
+	__CPROVER_assert(one.consumed <= size && r1.consumed <= k, "C04/C05: consumed does not exceed what was presented");
+	if(one.code == RC_OK && k < one.consumed) __CPROVER_assert(r1.code == RC_WMORE, "C05: a proper prefix of a valid encoding yields RC_WMORE");
+	if(r1.code == RC_WMORE) {
+		asn_dec_rval_t r2 = OCTET_STRING_decode_ber(&ctx, td, &s2, buf + r1.consumed, size - r1.consumed, 0);
+		__CPROVER_assert(r2.code == one.code, "C05: chunked decoding ends with the same return code as one-shot decoding");
+		if(one.code != RC_FAIL) __CPROVER_assert(r1.consumed + r2.consumed == one.consumed, "C05: chunked decoding consumes the same total");
+	} else {
+		__CPROVER_assert(r1.code == one.code, "C05: a chunk that decides the outcome decides it as the whole buffer does");
+		if(one.code == RC_OK) __CPROVER_assert(r1.consumed == one.consumed, "C05: same consumed count");
+	}
+	if(one.code == RC_OK && s1 && s2) {
+		OCTET_STRING_t *a = (OCTET_STRING_t *)s1, *b = (OCTET_STRING_t *)s2;
+		__CPROVER_assert(a->size == b->size && (a->size == 0 || memcmp(a->buf, b->buf, a->size) == 0), "C05: chunked decoding yields the same string");
+		if(bits) __CPROVER_assert(((BIT_STRING_t *)s1)->bits_unused == ((BIT_STRING_t *)s2)->bits_unused, "C05: and the same number of unused bits");
+	}
+	if(s1) OCTET_STRING_free(td, s1, ASFM_FREE_EVERYTHING);
+	if(s2) OCTET_STRING_free(td, s2, ASFM_FREE_EVERYTHING);
 }
 
 VF_NATIVE_MAIN
